@@ -73,6 +73,8 @@ def modelRec (pos : String) (text : List Char) : String :=
     | "eval" => []
     | "lot" => "}\n".toList
     | _ => ['\n']
+  -- every ledger position is preceded by `space0` in parse/posting.rs; `Ledger::eval` parses from the first character
+  let text := if pos == "eval" then text else skipSpaces text
   match parseValueExpr (text ++ suffix) with
   | .ok v rest =>
     if skipSpaces rest == suffix then s!"tree={(encVExpr v).toStr} res={evalPosition pos v}"
